@@ -6,7 +6,7 @@ import CSD.Model.SourceText
 import CSD.Lemmas.PFCMeta
 import CSD.Lemmas.RPDAC2
 import CSD.Lemmas.FM11
-import CSD.Lemmas.RPFC4
+import CSD.Lemmas.RPFC6
 
 namespace CSD.Props.C03
 open CSD CSD.PFC
@@ -160,6 +160,12 @@ theorem fm_models_match_source_text :
 /-- `extract(i)` of RPFC is the `i`-th smallest member, whatever grammar stores the buckets. -/
 theorem rpfc_extract_is_ith_smallest {S : List Str} {d : RPFC.D} (hst : RPFC.Stores S d) (i : Nat) (h1 : 1 ≤ i)
     (h2 : i ≤ S.length) : RPFC.extract d i = some (S[i - 1]?) := RPFC.extract_stores hst i h1 h2
+
+/-- `locate` of the `i`-th smallest member is `i + 1` for RPFC. -/
+theorem rpfc_locate_is_rank {S : List Str} {d : RPFC.D} (hst : RPFC.Stores S d) (hv : validDict S = true)
+    (i : Nat) (hi : i < S.length) : RPFC.locate d S[i] = some (i + 1) := by
+  obtain ⟨hne, hn, hs, _⟩ := validDict_facts hv
+  rw [RPFC.locate_stores hst S[i] hne hn (hn _ (List.getElem_mem hi)) hs, Spec.locate_getElem hs i hi]
 
 /-- The RPFC models were written against the current text of the C++ functions they mirror. -/
 theorem rpfc_models_match_source_text :
